@@ -708,7 +708,16 @@ fn run_case(sdir: &Path, langs: &[Lang], mut script: Script, origin: &str, deadl
                         w.buf[*u] = Some((*ver, *idents));
                     }
                     new_handler = Some(hr(vec![*u], vec![], false, true));
-                    ls.notify("textDocument/didChange", did_change(&uris[*u], ai as i64 + 2, &text_of(langs[*u], *u, *ver, *idents)))?;
+                    // every third change notification carries TWO full-text events: an older text first,
+                    // the new text last. LSP applies content changes in order, so the last one is the
+                    // document (a server that takes the first one holds a stale text).
+                    let mut msg = did_change(&uris[*u], ai as i64 + 2, &text_of(langs[*u], *u, *ver, *idents));
+                    if ai % 3 == 1 {
+                        let older = if *ver > 0 { *ver - 1 } else { *ver + 1 };
+                        let newest = msg["contentChanges"][0].clone();
+                        msg["contentChanges"] = json!([{"text": text_of(langs[*u], *u, older, *idents)}, newest]);
+                    }
+                    ls.notify("textDocument/didChange", msg)?;
                 }
                 Act::Save { u } => {
                     new_handler = Some(hr(vec![*u], vec![*u], false, false));
